@@ -392,6 +392,13 @@ add("C04", "fixed", "reparse-error:raw-body-ending-in-brace", "a raw body that e
     "'{% raw %}a{{% endraw %}{{ x }}' -> 'a{{{ x }}' (does not parse), '{% raw %}{{% endraw %}% assign v = 1 %}' -> a live assign tag",
     [c04("{% raw %}a{{% endraw %}{{ a }}"), c04("{% raw %}{{% endraw %}% assign v = 1 %}[{{ v }}]"), c04("{% raw %}{{% endraw %}# c #}")], "ee3cc60")
 
+add("C02", "fixed", "escape:AttributeError@extra/filters/translate.py:Translate.__call__", "render data under the name 'translations' (None, a string, a dict ...) was used as a message catalog by the translation filters and the "
+    "translate tag: AttributeError ('NoneType' object has no attribute 'gettext')",
+    [c02("{{ 'x' | t }}", {"translations": None}), c02("{% translate %}x{% endtranslate %}", {"translations": {"a": 1}}), c02("{{ 'x' | pgettext: 'c' }}", {"translations": "x"})], "e88e4bf")
+add("C02", "fixed", "escape:ValueError@extra/filters/babel.py:_resolve_locale", "a 'locale' / 'input_locale' render variable that is empty or not shaped like a locale identifier ('', '%', 'en_') raised babel's ValueError "
+    "(unknown but well-formed identifiers already fell back to the default locale)",
+    [c02("{{ 10 | currency }}", {"locale": ""}), c02("{{ 1.5 | decimal }}", {"input_locale": "%"})], "b2fb474")
+
 if __name__ == "__main__":
     # further entries are appended by tools/mkfindings.py from triaged replay files and kept in findings_extra.json
     extra_path = os.path.join(VERIF, "tools", "findings_extra.json")
